@@ -51,19 +51,23 @@ CLAIMED = {
             "content, mask, done, reward and forced-rollout equality as invariants (non-vacuity shown by a lossy-codec self-test); every printed state of the "
             "restored copy is replayed into the REAL restored objects (deepcopy, pickle, npz, dataset files + load_data, FJSP/JSSP text files); recorded real round "
             "trips incl. RNG state and Lightning checkpoints (policy parameters, greedy actions, rollout-baseline policy) are validated by PersistTrace.tla."),
-    "C20": ("model_checking", "6", "exact-rational TLA+ state machines (Welford, EMA, warm-up), TLC exhaustive; replay + TLC trace validation",
+    "C20": ("model_checking", "6", "exact-rational TLA+ state machines (Stats.tla: Welford, EMA, warm-up; TrainingRun.tla: epoch protocol of a whole REINFORCE run), TLC exhaustive; replay into the real classes + TLC trace validation (StatsTrace.tla, TrainingRunTrace.tla incl. real RL4COTrainer.fit)",
             "Stats.tla is model-checked for all histories of a small scope (invariants: mean, M2, sample variance, EMA closed form, "
             "warm-up weight and convex combination); every history is replayed into the real classes call by call; longer random "
-            "histories of the real classes are validated by StatsTrace.tla."),
+            "histories of the real classes are validated by StatsTrace.tla. TrainingRun.tla (Setup / TrainEpoch / EpochEnd / Regen; warm-up "
+            "schedule, baseline update iff better and significant) is model-checked for all runs of <= 4 epochs, every run is replayed into a real "
+            "REINFORCE module with state comparison after every action, and real RL4COTrainer.fit runs are validated by TrainingRunTrace.tla."),
     "C12": ("model_checking", "6", "Layout.tla index algebra + best-of-k, TLC exhaustive; replay into batchify/unbatchify/_select_best; LayoutTrace.tla on real select_start_nodes",
             "Layout.tla (batchify/unbatchify as index functions, any nesting; best-of-k selection) is model-checked for all batch sizes x "
             "nestings x reward assignments of a small scope; every terminal state is replayed into the real tensor/TensorDict "
             "operations; forced start nodes of real environments are validated by LayoutTrace.tla (feasible, distinct per instance)."),
-    "C16": ("model_checking", "6", "Reinforce.tla / PPOSurrogate.tla exact surrogates, TLC exhaustive; replay into real loss code with stub policy, autograd gradients compared",
+    "C16": ("model_checking", "6", "Reinforce.tla / PPOSurrogate.tla / StepwisePPO.tla / NStepPPO.tla exact surrogates, TLC exhaustive; replay into real loss code (calculate_loss, shared_step of PPO, StepwisePPO, n_step_PPO) with stub policy, autograd gradients compared",
             "All training steps of a small scope (rewards, log-likelihoods, baseline inputs; successive steps for the stateful "
             "exponential baseline) are enumerated by TLC with exact loss and gradient values and replayed into REINFORCE.calculate_loss, "
             "A2C, POMO.shared_step, SymNCO losses and PPO.shared_step; loss and the gradients reaching log-likelihoods / critic outputs "
-            "are compared."),
+            "are compared. StepwisePPO.tla (buffered transitions, mini-batches without replacement) and NStepPPO.tla (n-step returns, bootstrap, "
+            "value clipping, curriculum; rewards from the TSPkoptEnv tour model) are explored exhaustively and every case goes through the real "
+            "shared_step (real torchrl buffer, real TSPkoptEnv)."),
     "C11": ("model_checking", "6", "Decode.tla.tmpl machine D (decoding protocol x env model x table policy), TLC exhaustive; real ConstructivePolicy with stub decoder compared behaviour by behaviour; DecodeTrace.tla on neural policies",
             "TLC enumerates every behaviour of the decoding protocol (greedy, sampling, multistart_*, evaluate) over the TSP and CVRP "
             "models with an explicit table policy and exact per-step probabilities; the table is plugged into the real "
@@ -74,10 +78,12 @@ CLAIMED = {
             "TLC explores beam search (any top-W subset at every step, exact rational scores) over the TSP/CVRP models with invariants "
             "complete+feasible, distinct, W beams; the real BeamSearch with the same table policy must return one of the allowed "
             "beam sets with each beam's own per-step log-probabilities and reward, and select_best the maximum of the instance's beams."),
-    "C17": ("model_checking", "6", "Loader.tla (loader order, partial batches, extra values via evaluation batches), TLC exhaustive; replay + LoaderTrace.tla on real dataset classes / DataLoader / RolloutBaseline",
+    "C17": ("model_checking", "6", "Loader.tla (loader order, partial batches, extra values via evaluation batches) and TrainingRun.tla (which baseline values a batch carries along a whole training run), TLC exhaustive; replay + LoaderTrace.tla / TrainingRunTrace.tla on real dataset classes / DataLoader / RolloutBaseline / REINFORCE / RL4COTrainer.fit",
             "All (n, batch size, evaluation batch size, loader order) of a small scope are model-checked (no loss/duplication, extra of its "
             "own item, batch sizes); unshuffled behaviours are replayed through the real dataset classes wrapped by RolloutBaseline; "
-            "recorded passes (all classes, shuffle, extra key, RL4COLitModule._dataloader_single) are validated by LoaderTrace.tla."),
+            "recorded passes (all classes, shuffle, extra key, RL4COLitModule._dataloader_single) are validated by LoaderTrace.tla. TrainingRun.tla "
+            "(wrap at set-up, at every regeneration and after baseline updates; rollout_only = warm-up length 0) is model-checked, replayed into a real "
+            "REINFORCE module and validated on real RL4COTrainer.fit runs."),
     "C15": ("model_checking", "6", "Augment.tla (dihedral maps) TLC exhaustive + replay; AugTrace.tla / EvalTrace (over the env problem definitions) on real evaluation classes",
             "The 8 dihedral maps are model-checked on the integer grid (distance preserving, first copy identity) and replayed into the real "
             "function; the continuous symmetric augmentation and every evaluation class (greedy, augmentation, sampling, multistart, "
